@@ -415,7 +415,11 @@ def run_check(prop: str, tier: str, harness_filter=None, workers=None) -> int:
                     continue
                 seen.setdefault(key, v)
             reported_msgs = set()
-            cand = list(seen.values())
+            # replay one candidate per distinct message (at most 16 messages per harness)
+            by_msg = {}
+            for v in seen.values():
+                by_msg.setdefault(v["msg"], v)
+            cand = list(by_msg.values())[:16]
             entry["candidate_violations"] = len(res["violations"])
             confirmed = 0
             for v in cand:
